@@ -174,7 +174,10 @@ def rule_compact(R):
          "after the move the entry's offset is the cursor, and when the loop ends `used` is the cursor", where=b.span)
     # no way around the pass: every return has stored `used = cursor` (so the whole list was walked) -- except an early
     # exit taken when `used` already equals the sum of the entries' lengths (nothing to reclaim)
-    uac = roles.method(f, OUTBOUND, "used_after_compact")
+    try:
+        uac = roles.method(f, OUTBOUND, "used_after_compact")
+    except AnchorLost:
+        uac = None           # folded into its callers: then there is no justified early exit to recognise
     just = []
     for sb in b.switches:
         if sb not in b.reachable:
@@ -183,7 +186,7 @@ def rule_compact(R):
         sj = peel(si["subject"])
         if sj[0] == "bin" and sj[1] in ("Eq", "Ne"):
             sides = [peel(sj[2]), peel(sj[3])]
-            if any(chain(x)[1] == ["used"] for x in sides) and any(x[0] == "call" and x[2] == uac.name for x in sides):
+            if uac is not None and any(chain(x)[1] == ["used"] for x in sides) and any(x[0] == "call" and x[2] == uac.name for x in sides):
                 e = si["edges"].get(sj[1] == "Eq")
                 if e is not None:
                     just.append((sb, e))
@@ -314,6 +317,31 @@ def rule_used(R):
         t = b.rvalue_term(rv)
         if b.name == enq.name:
             ok = is_call(peel(t), "Ord::max", "max") and any(chain(x)[1] == ["used"] for x in peel(t)[3])
+            if not ok:
+                # `if end > self.used { self.used = end }`: the same maximum, spelled as a guarded store
+                tt = peel(t)
+                if tt[0] == "field" and peel(tt[1])[0] == "bin":
+                    tt = peel(tt[1])
+                for sb in b.switches:
+                    if sb not in b.reachable:
+                        continue
+                    si = b.switch_info(sb)
+                    sj = peel(si["subject"])
+                    if sj[0] == "bin" and sj[1] in ("Gt", "Lt", "Ge", "Le"):
+                        x_, y_ = peel(sj[2]), peel(sj[3])
+                        if sj[1] in ("Lt", "Le"):
+                            x_, y_ = y_, x_
+                        # x_ > y_ : new end on the left, `used` on the right
+                        def _same(u, v):
+                            u, v = peel(u), peel(v)
+                            if u[0] == "field" and peel(u[1])[0] == "bin":
+                                u = peel(u[1])
+                            if v[0] == "field" and peel(v[1])[0] == "bin":
+                                v = peel(v[1])
+                            return same_shape(u, v)
+                        e = si["edges"].get(True)
+                        if chain(y_)[1] == ["used"] and _same(x_, tt) and e is not None and b.must_pass([0], [bb], via_edges=[(sb, e)])[0]:
+                            ok = True
         elif b.name == compact.name:
             ok = True  # shape checked by compact/bookkeeping
         else:
@@ -330,17 +358,33 @@ def rule_used(R):
                      "a new arena starts empty", where=s["span"])
     R.floor("used/writer", n, 3, "stores to `used`")
     # free-space computations depend on the entries only
-    for name in ("scratch_len", "can_retain", "used_after_compact"):
+    try:
+        uac = roles.method(f, OUTBOUND, "used_after_compact")
+    except AnchorLost:
+        uac = None
+    for name in ("scratch_len", "can_retain") + (("used_after_compact",) if uac is not None else ()):
         b = roles.method(f, OUTBOUND, name)
         touched = set(x[1] for x in f.fields_touched(b.name) if x[0] == OUTBOUND)
         R.ob("used/free-space/%s" % name, touched <= {"buf", "retained"} and "retained" in touched,
              "%s depends only on the arena size and the retained entries (reads %s)" % (name, sorted(touched)), where=b.span)
-    uac = roles.method(f, OUTBOUND, "used_after_compact")
-    cl = [c for c in f.children(uac) if c.kind == "closure"]
-    ok_sum = len(cl) == 1 and chain(cl[0].local_term(0))[1][-1:] == ["len"] and is_call(peel(uac.local_term(0)), "sum")
+    if uac is not None:
+        needed, holder = peel(uac.local_term(0)), uac
+    else:
+        # the sum was folded into scratch_len: it is what is subtracted from the arena size there
+        holder = roles.method(f, OUTBOUND, "scratch_len")
+        needed = None
+        for x in walk(peel(holder.local_term(0))):
+            if isinstance(x, tuple) and is_call(x, "saturating_sub", "checked_sub", "wrapping_sub") and len(x[3]) == 2:
+                needed = peel(x[3][1])
+            elif isinstance(x, tuple) and x[0] == "bin" and x[1].startswith("Sub") and needed is None:
+                needed = peel(x[3])
+        if needed is None:
+            raise AnchorLost("space-needed", "neither Outbound::used_after_compact nor a subtraction in scratch_len")
+    cl = [c for c in f.children(holder) if c.kind == "closure"]
+    ok_sum = len(cl) == 1 and chain(cl[0].local_term(0))[1][-1:] == ["len"] and is_call(needed, "sum")
     if not ok_sum:
         # an explicit accumulator: `let mut total = 0; for entry in &self.retained { total += entry.len }; total`
-        alts = phi_alts(peel(uac.local_term(0)))
+        alts = phi_alts(needed)
         zero = [a for a in alts if a[0] == "const" and a[2] == 0]
         adds = []
         for a in alts:
@@ -355,7 +399,7 @@ def rule_used(R):
         ok_sum = bool(zero) and len(adds) >= 1 and len(zero) + len(adds) == len(alts) and \
             all(any(is_len_of_entry(x) for x in (a[2], a[3])) and any(any(y[0] == "loop" for y in walk(x)) or peel(x)[0] == "const" for x in (a[2], a[3])) for a in adds)
     R.ob("used/free-space/sum-of-len", ok_sum,
-         "the space needed after compaction is the sum of the entries' lengths", where=uac.span)
+         "the space needed after compaction is the sum of the entries' lengths", where=holder.span)
 
 
 def rule_arena_order(R):
